@@ -65,10 +65,10 @@ theorem Rel.same {cfg : Cfg} {st st' : St} {t : Track} (h : Rel cfg st t)
     by rw [hph, hat, hiv]; exact h.idle0⟩
   · intro rid b hp; rw [hph] at hp
     have a := h.sending rid b hp
-    exact ⟨a.cur, a.res, a.br, by rw [hat]; exact a.chain, a.sub, a.nodup⟩
+    exact ⟨a.cur, a.res, a.br, by rw [hat]; exact a.chain, a.sub, a.nodup, a.ne, a.al⟩
   · intro tid b tps hp; rw [hph] at hp
     have a := h.retrying tid b tps hp
-    exact ⟨a.tid, a.res, a.br, by rw [hat]; exact a.chain, by rw [hat]; exact a.att, a.sub, a.nodup, by rw [hst]; exact a.nostop⟩
+    exact ⟨a.tid, a.res, a.br, by rw [hat]; exact a.chain, by rw [hat]; exact a.att, a.sub, a.nodup, by rw [hst]; exact a.nostop, a.ne, a.al⟩
   · intro tid ht; exact Nat.lt_of_lt_of_le (h.rt_lt tid ht) hnt
   · intro ls hp l hl tid hpc; rw [hph] at hp; exact Nat.lt_of_lt_of_le (h.bo_lt ls hp l hl tid hpc) hnt
   · intro ls hp; rw [hph] at hp; exact h.bo_nr ls hp
@@ -128,7 +128,9 @@ theorem rel_landed {cfg : Cfg} {st' : St} {t1 : Track} {e : Ev} {obs : List Ob} 
     refine ⟨hp.stopped, ?_, ?_, ?_, lastP_update_nodup _ _ a2.nodup hp.lp_nodup, hp.rt_lt, ?_, ?_, ?_, by rw [a3]; omega, ?_⟩
     · intro rid' b' h
       rw [a1] at h; injection h with h1 h2; subst h1; subst h2
-      refine ⟨by rw [hpf], rfl, ⟨rfl, a2.nodup, ?_, ?_, ?_, Nat.le_refl 1⟩, by rw [a3]; simp; omega, ?_, by rw [a2.cur]; exact a2.nodup⟩
+      refine ⟨by rw [hpf], rfl, ⟨rfl, a2.nodup, ?_, ?_, ?_, Nat.le_refl 1⟩, by rw [a3]; simp; omega, ?_, by rw [a2.cur]; exact a2.nodup,
+        by rw [a2.cur]; intro hc; exact a2.ne (List.map_eq_nil_iff.mp hc),
+        fun _ tp htp => by rw [a2.cur]; rw [a2.live] at htp; exact htp⟩
       · rw [a2.live]; simp only [List.not_mem_nil, not_false_eq_true, decide_true]
         exact (List.filter_eq_self.mpr (fun _ _ => rfl)).symm
       · intro g hg
